@@ -541,7 +541,7 @@ Proof.
 Qed.
 
 Lemma scroll_down_px : forall c m a b f back sy0 sy1 sx0 sx1 ty0 tx0 fy0 fy1 fx0 fx1 y x,
-  inb c y x -> 0 < f -> a <= b ->
+  inb c y x -> 0 < f -> a <= b + 1 ->
   sy0 = (a - 1) * f -> sy1 = (b - 1) * f -> sx0 = 0 -> sx1 = PW c -> ty0 = a * f -> tx0 = 0 ->
   fy0 = (a - 1) * f -> fy1 = a * f -> fx0 = 0 -> fx1 = PW c ->
   mset c (mmove c m sy0 sy1 sx0 sx1 ty0 tx0) fy0 fy1 fx0 fx1 (fun _ _ => back) y x =
@@ -550,7 +550,7 @@ Lemma scroll_down_px : forall c m a b f back sy0 sy1 sx0 sx1 ty0 tx0 fy0 fy1 fx0
 Proof.
   intros c m a b f back sy0 sy1 sx0 sx1 ty0 tx0 fy0 fy1 fx0 fx1 y x [Iy Ix] Hf Hab
          -> -> -> -> -> -> -> -> -> ->.
-  assert (Hm : (a - 1) * f <= (b - 1) * f) by (apply Z.mul_le_mono_nonneg_r; lia).
+  assert (Hm : (a - 1) * f <= b * f) by (apply Z.mul_le_mono_nonneg_r; lia).
   unfold mmove, mset, zimg. split_rects; try reflexivity; try lia; f_equal; lia.
 Qed.
 
@@ -566,13 +566,13 @@ Proof.
   split_rects; try reflexivity; try lia; f_equal; lia.
 Qed.
 
-Lemma scroll_down_canvas : forall k a b back y x, 0 <= y < cPH k -> 0 <= x < cPW k -> 0 < cfh k -> a <= b ->
+Lemma scroll_down_canvas : forall k a b back y x, 0 <= y < cPH k -> 0 <= x < cPW k -> 0 < cfh k -> a <= b + 1 ->
   canvas (consume1 k (SScroll 1 a b back)) y x =
   if inrect ((a - 1) * cfh k) (a * cfh k) 0 (cPW k) y x then back
   else if inrect (a * cfh k) (b * cfh k) 0 (cPW k) y x then canvas k (y - cfh k) x else canvas k y x.
 Proof.
   intros k a b back y x Iy Ix Hf Hab.
-  assert (Hm : (a - 1) * cfh k <= (b - 1) * cfh k) by (apply Z.mul_le_mono_nonneg_r; lia).
+  assert (Hm : (a - 1) * cfh k <= b * cfh k) by (apply Z.mul_le_mono_nonneg_r; lia).
   unfold consume1. geo. change (1 =? -1) with false. cbv iota.
   unfold cset, set_canvas. cbn [canvas cPH cPW].
   split_rects; try reflexivity; try lia; f_equal; lia.
@@ -615,7 +615,7 @@ Proof.
 Qed.
 
 Lemma scroll_down_ok : forall c p pg from to back ws img, cfg_ok c ->
-  1 <= from <= to -> to * fh c <= PH c ->
+  1 <= from <= to + 1 -> to * fh c <= PH c ->
   page_op_ok c pg (scroll_down c p pg from to back ws img).
 Proof.
   intros c p pg from to back ws img C Hft Hto.
@@ -640,7 +640,7 @@ Proof.
     rewrite scroll_down_canvas by (rewrite ?G1a, ?G1b, ?G1e; destruct I; lia).
     rewrite (scroll_down_px c (px pg1) from to (fh c) back) by (try exact I; lia).
     rewrite G1e, G1b. destruct I as [Iy Ix].
-    assert (Hm : (from - 1) * fh c <= (to - 1) * fh c) by (apply Z.mul_le_mono_nonneg_r; lia).
+    assert (Hm : (from - 1) * fh c <= to * fh c) by (apply Z.mul_le_mono_nonneg_r; lia).
     assert (Hone : 1 * fh c <= from * fh c) by (apply Z.mul_le_mono_nonneg_r; lia).
     split_rects; try reflexivity; apply A1; split; lia.
 Qed.
